@@ -66,15 +66,22 @@ type Obligation struct {
 	Model   string
 	SmtFile string
 	idx     int
+	seg     int
 }
 
 type Item struct {
 	Assert string
 	Obl    *Obligation
+	// segments ("at +N cut"): an assertion made in segment s > 0 is visible to the obligations of segment s only,
+	// unless it is permanent (a kept summary); segment 0 (before the first cut) is always visible
+	Seg  int
+	Perm bool
 }
 
 // Fx is the verification context of one top-level function.
 type Fx struct {
+	curSeg     int  // current segment (see Item)
+	permNext   bool // the next assertions are kept summaries
 	rootAlloc  string // allocation counter at the entry of the verified function
 	E          *Engine
 	top        *ssa.Function
@@ -152,7 +159,7 @@ func (fx *Fx) assert(t string) {
 		}
 		fx.asserted[t] = true
 	}
-	fx.items = append(fx.items, Item{Assert: t})
+	fx.items = append(fx.items, Item{Assert: t, Seg: fx.curSeg, Perm: fx.permNext})
 }
 
 // name introduces a named constant for a long term
@@ -189,8 +196,9 @@ func (fx *Fx) obligeNamed(base, kind string, tags []string, cond, goal, src, tex
 		o.Status = "discharged"
 		o.Solver = "trivial"
 	}
+	o.seg = fx.curSeg
 	fx.obls = append(fx.obls, o)
-	fx.items = append(fx.items, Item{Obl: o})
+	fx.items = append(fx.items, Item{Obl: o, Seg: fx.curSeg})
 	return o
 }
 
